@@ -20,6 +20,8 @@
 name: mbuff.init_from_fd
 define: VERIF_MB_GHOSTCOPY, VERIF_MB_GHOST1, VERIF_IN_MAXCALLS=3, U_FD
 src: mbuff.c, obj.c
+native: mbuff
+native_includes: mbuff.c
 enforce: spif_mbuff_init_from_fd
 backend: sat
 tier: B
@@ -33,6 +35,8 @@ timeout: 900
 name: mbuff.init_from_fp
 define: VERIF_MB_GHOSTCOPY, VERIF_MB_GHOST1, VERIF_IN_MAXCALLS=3, U_FP
 src: mbuff.c, obj.c
+native: mbuff
+native_includes: mbuff.c
 enforce: spif_mbuff_init_from_fp
 backend: sat
 tier: B
@@ -46,6 +50,8 @@ timeout: 900
 name: mbuff.new_from_fd
 define: U_NEW_FD
 src: mbuff.c, obj.c
+native: mbuff
+native_includes: mbuff.c
 enforce: spif_mbuff_new_from_fd
 replace: spif_mbuff_init_from_fd
 backend: sat
@@ -56,6 +62,8 @@ flags: --slice-formula
 name: mbuff.new_from_fp
 define: U_NEW_FP
 src: mbuff.c, obj.c
+native: mbuff
+native_includes: mbuff.c
 enforce: spif_mbuff_new_from_fp
 replace: spif_mbuff_init_from_fp
 backend: sat
